@@ -361,11 +361,13 @@ class RunA:
             fi.ref = None
             if not fi.damaged and fi.kind != 'raw':
                 fi.ref = self.reference(data)
-                if fi.ref is None and 'C20' not in self.props:
-                    # not a "complete valid frame" (C06/C07 wording).  C20
-                    # speaks of every frame the encoder produces, so there
-                    # the frame stays expected and the decoder must take it.
-                    fi.damaged = True
+                # A frame the real encoder produced from accepted values is
+                # a valid frame whatever the decoder thinks of it: it stays
+                # expected (it must decode, consume its length, report its
+                # channel; its prefixes must raise).  Only the comparison of
+                # the decoded *value* needs the reference and is skipped when
+                # the isolated decode gives none - value round trips are
+                # C01-C03, not claimed here.
             c.frames.append(fi)
         trailer = bytes.fromhex(ct.get('trailer', ''))
         c.stream = b''.join(f.data for f in c.frames) + trailer
@@ -565,18 +567,20 @@ class RunA:
         """C06 clause 1: same answer as the isolated decode of that frame."""
         self.oracle('C06.delivery')
         n, ch, f = val
-        got = (n, ch, canon_frame(f))
-        if got != fi.ref:
-            if n != fi.ref[0]:
-                what = 'consumed %r, frame is %d bytes' % (n, fi.ref[0])
-                key = 'consumed'
-            elif ch != fi.ref[1]:
-                what = 'channel %r, sent on %r' % (ch, fi.ref[1])
-                key = 'channel'
-            else:
-                what = 'decoded value differs from the isolated decode of ' \
-                       'the same frame bytes'
-                key = 'value'
+        sent_ch = 0 if fi.kind == 'protocol' else \
+            int.from_bytes(fi.data[1:3], 'big')
+        key = what = None
+        if n != len(fi.data):
+            what = 'consumed %r, frame is %d bytes' % (n, len(fi.data))
+            key = 'consumed'
+        elif ch != sent_ch or type(ch) is not int:
+            what = 'channel %r, sent on %r' % (ch, sent_ch)
+            key = 'channel'
+        elif fi.ref is not None and canon_frame(f) != fi.ref[2]:
+            what = 'decoded value differs from the isolated decode of ' \
+                   'the same frame bytes'
+            key = 'value'
+        if key is not None:
             self.fail('C06', 'delivery', ['delivery', key, fi.kind],
                       'frame %d of connection %d (%s) followed by %s: %s' % (
                           fi.idx, c.idx, fi.kind, what_follows, what), buf)
@@ -614,10 +618,9 @@ class RunA:
             if status == 'ok':
                 n = val[0]
                 if rel == 'complete':
-                    if fi.ref is not None:
-                        self.check_delivery(
-                            c, fi, buf, val,
-                            self.follows(buf, fi.ref[0], c, fi))
+                    self.check_delivery(
+                        c, fi, buf, val,
+                        self.follows(buf, len(fi.data), c, fi))
                     inc.ptr += 1
                     if n != len(fi.data):
                         # out of step; some other property's business here
@@ -633,8 +636,7 @@ class RunA:
                     break
                 inc.buf = buf[n:]
                 continue
-            if rel == 'complete' and status != 'budget' and \
-                    fi.ref is not None:
+            if rel == 'complete' and status != 'budget':
                 self.oracle('C06.delivery')
                 self.fail('C06', 'delivery',
                           ['delivery', 'refused', fi.kind],
@@ -719,14 +721,13 @@ class RunA:
                                   fi.kind, canon_exc(val)[1:]), fr)
             if status == 'ok':
                 if rel is not None and want == len(fi.data):
-                    if fi.ref is not None:
-                        self.check_delivery(c, fi, fr, val, 'nothing')
+                    self.check_delivery(c, fi, fr, val, 'nothing')
                     inc.ptr += 1
                 inc.delivered += 1
                 inc.buf = buf[want:]
                 continue
             if rel is not None and status != 'budget' and \
-                    want == len(fi.data) and fi.ref is not None:
+                    want == len(fi.data):
                 self.oracle('C06.delivery')
                 self.fail('C06', 'delivery', ['delivery', 'refused', fi.kind],
                           'complete %s frame refused by the decoder' %
